@@ -294,6 +294,12 @@ func newNetwork(cfg Config) (*Network, error) {
 			p := tss.NewParameters(ownEC(), ownCtx(ctx), own(id), len(ids), cfg.Threshold)
 			setRand(n, p)
 			if cfg.Proto == EcdsaKeygen {
+				if cfg.NoProofMod {
+					p.SetNoProofMod()
+				}
+				if cfg.NoProofFac {
+					p.SetNoProofFac()
+				}
 				n.endKG = make(chan *eckg.LocalPartySaveData, 16)
 				if i >= len(cfg.PreParams) {
 					return nil, fmt.Errorf("not enough pre-params")
